@@ -28,10 +28,19 @@ type V0 struct{ P *Tok }
 type V1 struct{ P *Tok }
 type V2 struct{ P *Tok }
 type V3 struct{ P *Tok }
-type V4 struct{ P *Tok }
+
+// V4 and V7 have no methods and, thanks to the second (zero-size) field, are not pointer-shaped: they are the
+// carriers that reflect.StructOf can embed as anonymous fields next to other fields.
+type V4 struct {
+	P *Tok
+	_ struct{}
+}
 type V5 struct{ P *Tok }
 type V6 struct{ P *Tok }
-type V7 struct{ P *Tok }
+type V7 struct {
+	P *Tok
+	_ struct{}
+}
 
 func (V0) M0() {}
 func (V1) M0() {}
@@ -71,3 +80,11 @@ type TV4 []V4
 type TV5 []V5
 type TV6 []V6
 type TV7 []V7
+
+// VB is a plain struct whose fields are themselves carriers (the token sits in A.P). If dig ever took it
+// for a parameter object its fields would be filled from the keys V4 and V7 instead of the value its own
+// constructor returned.
+type VB struct {
+	A V4
+	B V7
+}
